@@ -32,6 +32,8 @@ def run(chk):
     e10.run_U(chk, ("yastn.tensor._merging", "yastn.tensor._contractions", "yastn.tensor._algebra", "yastn.tensor._legs", "yastn.initialize"), floor1=5, floor2=1)
 
 MUTANTS = [
+    ('compatibility test ignores the dimensions of fused legs', 'yastn/tensor/_tests.py', '        if a.hfs[i1].t != b.hfs[i2].t or a.hfs[i1].D != b.hfs[i2].D:', '        if a.hfs[i1].t != b.hfs[i2].t:', 'F6'),
+    ('mfs expanded front to back', 'yastn/tensor/_merging.py', '        for unfused, n in zip(nlegs[::-1], axes_mf[::-1]):\n            mfs = mfs[:n] + [(1,)] * unfused + mfs[n+1:]', '        for unfused, n in zip(nlegs, axes_mf):\n            mfs[n: n + 1] = [(1,)] * unfused', 'F7'),
     ('signatures popped for products only', 'yastn/tensor/_merging.py', '        ss = [tuple(s1.pop(it) for _ in range(no)) for s1 in s]\n        tt = [tuple(t1.pop(it) for _ in range(no)) for t1 in t]', "        tt = [tuple(t1.pop(it) for _ in range(no)) for t1 in t]\n        if op[it - 1] == 'p':\n            ss = [tuple(s1.pop(it) for _ in range(no)) for s1 in s]", 'F5'),
     ("mask test only on blocked legs", "yastn/initialize.py", "        if any(_legs_mask_needed(ulegs[n][pa[n]], leg) for n, leg in enumerate(legs_tn[pa])):", "        if any(_legs_mask_needed(ulegs[n][pa[n]], legs_tn[pa][n]) for n in out_b):", "F4"),
     ("mask test skips the first leg", "yastn/initialize.py", "        if any(_legs_mask_needed(ulegs[n][pa[n]], leg) for n, leg in enumerate(legs_tn[pa])):", "        if any(_legs_mask_needed(ulegs[n][pa[n]], leg) for n, leg in enumerate(legs_tn[pa]) if n > 0):", "F4"),
